@@ -403,8 +403,12 @@ def path_get(obj, path):
 def apply_answer_fault(answer_obj, fault, cfg):
     """Returns the bytes the peer finally emits."""
     def dump(o):
-        return json.dumps(o, ensure_ascii=cfg.get('ensure_ascii', False)
-                          ).encode('utf-8')
+        try:
+            return json.dumps(o, ensure_ascii=cfg.get('ensure_ascii', False)
+                              ).encode('utf-8')
+        except UnicodeEncodeError:
+            # an unpaired surrogate travels as \uXXXX escape
+            return json.dumps(o, ensure_ascii=True).encode('utf-8')
     faults = fault if isinstance(fault, list) else [fault]
     raw = None
     for f in faults:
